@@ -50,6 +50,12 @@ func RegisterPackage(info *types.Info, files []*ast.File) {
 	def := map[types.Object]ast.Expr{}
 	tdef := map[types.Object]TupleDef{}
 	opaque := map[types.Object]bool{}
+	type reas struct {
+		as *ast.AssignStmt
+		i  int
+	}
+	reassign := map[types.Object][]reas{}
+	zeroDecl := map[types.Object]*ast.ValueSpec{}
 	objOf := func(e ast.Expr) types.Object {
 		id, ok := e.(*ast.Ident)
 		if !ok {
@@ -78,8 +84,12 @@ func RegisterPackage(info *types.Info, files []*ast.File) {
 						} else {
 							opaque[o] = true
 						}
+					} else if x.Tok == token.ASSIGN {
+						// re-assigned; a local declared without a value and assigned exactly
+						// once, unconditionally, is judged after the walk
+						reassign[o] = append(reassign[o], reas{x, i})
 					} else {
-						opaque[o] = true // re-assigned
+						opaque[o] = true
 					}
 				}
 			case *ast.ValueSpec:
@@ -91,6 +101,8 @@ func RegisterPackage(info *types.Info, files []*ast.File) {
 					count[o]++
 					if len(x.Values) == len(x.Names) {
 						def[o] = x.Values[i]
+					} else if len(x.Values) == 0 {
+						zeroDecl[o] = x
 					} else {
 						opaque[o] = true
 					}
@@ -116,6 +128,92 @@ func RegisterPackage(info *types.Info, files []*ast.File) {
 			}
 			return true
 		})
+	}
+	// `var x T` followed by exactly one `x = e` that is reached unconditionally
+	// from the declaration (only plain blocks in between) with no read of x
+	// before it: e is x's definition. (This is what expanding a helper in place
+	// leaves: the result variables are declared first, the body assigns them.)
+	if len(reassign) > 0 {
+		parent := map[ast.Node]ast.Node{}
+		for _, f := range files {
+			var stack []ast.Node
+			ast.Inspect(f, func(n ast.Node) bool {
+				if n == nil {
+					stack = stack[:len(stack)-1]
+					return true
+				}
+				if len(stack) > 0 {
+					parent[n] = stack[len(stack)-1]
+				}
+				stack = append(stack, n)
+				return true
+			})
+		}
+		for o, rs := range reassign {
+			vs := zeroDecl[o]
+			if vs == nil || len(rs) != 1 || opaque[o] {
+				opaque[o] = true
+				continue
+			}
+			r := rs[0]
+			// the block that holds the declaration
+			var declBlock ast.Node
+			for n := ast.Node(vs); n != nil; n = parent[n] {
+				if _, isDS := n.(*ast.DeclStmt); isDS {
+					declBlock = parent[n]
+					break
+				}
+			}
+			ok := declBlock != nil
+			for n := parent[ast.Node(r.as)]; ok && n != declBlock; n = parent[n] {
+				if _, isBlk := n.(*ast.BlockStmt); !isBlk || n == nil {
+					ok = false
+				}
+			}
+			if ok {
+				// no read between the declaration and the assignment, none inside the right-hand side
+				ast.Inspect(declBlock, func(n ast.Node) bool {
+					id, isId := n.(*ast.Ident)
+					if !isId || info.Uses[id] != o {
+						return true
+					}
+					if id.Pos() > vs.End() && id.Pos() < r.as.End() {
+						// the left-hand side itself, or `_ = x`
+						if pa, isAs := parent[id].(*ast.AssignStmt); isAs {
+							if pa == r.as {
+								for _, l := range pa.Lhs {
+									if l == ast.Expr(id) {
+										return true
+									}
+								}
+							} else if len(pa.Lhs) == 1 && len(pa.Rhs) == 1 && pa.Rhs[0] == ast.Expr(id) {
+								if b, isB := pa.Lhs[0].(*ast.Ident); isB && b.Name == "_" {
+									return true
+								}
+							}
+						}
+						ok = false
+					}
+					return true
+				})
+			}
+			if !ok {
+				opaque[o] = true
+				continue
+			}
+			if len(r.as.Lhs) == len(r.as.Rhs) {
+				def[o] = r.as.Rhs[r.i]
+			} else if call, isCall := ast.Unparen(r.as.Rhs[0]).(*ast.CallExpr); isCall && len(r.as.Rhs) == 1 {
+				tdef[o] = TupleDef{call, r.i}
+			} else {
+				opaque[o] = true
+			}
+		}
+	}
+	for o := range zeroDecl {
+		if _, has := reassign[o]; !has {
+			opaque[o] = true // declared without a value and never plainly assigned: not a definition
+		}
 	}
 	for o, e := range def {
 		v, ok := o.(*types.Var)
